@@ -761,6 +761,7 @@ def run_core(ctx, tdir):
     """Run the extracted integrated model Comp/Core.v in lock-step with the traces of a directory."""
     files = sorted(glob.glob(os.path.join(tdir, "*.trace")))
     ok, diffs, outside, ops, outs = 0, [], [], 0, 0
+    cover = {}
     for i in range(0, len(files), 400):
         rc, out = sh([driver_exe(), "core"] + files[i:i + 400], timeout=1800)
         if rc != 0:
@@ -776,7 +777,9 @@ def run_core(ctx, tdir):
                 diffs.append({"path": f[1], "line": int(f[2]), "op": f[3], "model": f[4], "gateway": f[5] if len(f) > 5 else ""})
             elif f[0] == "COREOUT":
                 outside.append({"path": f[1], "line": int(f[2]), "why": f[3] if len(f) > 3 else ""})
-    return {"ok": ok, "diffs": diffs, "outside": outside, "ops": ops, "outs": outs, "files": len(files)}
+            elif f[0] == "CORECOVER":
+                cover[f[1]] = cover.get(f[1], 0) + int(f[2])
+    return {"ok": ok, "diffs": diffs, "outside": outside, "ops": ops, "outs": outs, "files": len(files), "cover": cover}
 
 
 def stage_core(ctx, n_quick=300, n_thorough=4000, monitor_props=None):
@@ -818,7 +821,7 @@ def stage_core(ctx, n_quick=300, n_thorough=4000, monitor_props=None):
     ctx.traces += len(stats)
     rep = {"histories": r["files"], "lockstep_ok": r["ok"], "lockstep_diffs": len(r["diffs"]), "outside_the_modelled_fragment": len(r["outside"]),
            "model_ops": r["ops"], "outputs_compared": r["outs"], "monitor_violations_this_property": sum(1 for v in viols if v["prop"] in (monitor_props or (ctx.pid,))),
-           "attributed_to_known_findings": nk}
+           "attributed_to_known_findings": nk, "branch_coverage": dict(sorted(r["cover"].items()))}
     if r["outside"]:
         rep["outside_examples"] = r["outside"][:3]
     # a history that leaves the modelled fragment is a harness matter unless the gateway did it (an unexpected request,
